@@ -215,6 +215,15 @@ pub struct Recv { pub last_processed_id: StreamId, pub tag: u8 }
 impl Recv {
     pub fn last_processed_id(&self) -> (r: StreamId) ensures r == self.last_processed_id { self.last_processed_id }
 
+    /// Recv::recv_eof (verified in unit v_recv): the stream is failed with a broken-pipe I/O error unless it already ended
+    #[verifier::external_body]
+    pub fn recv_eof(&mut self, stream: &mut Stream)
+        ensures
+            *final(self) == *old(self),
+            *final(stream) == (Stream { state: final(stream).state, send_task: None, recv_task: None, push_task: None, ..*old(stream) }),
+            final(stream).state.inner == old(stream).state.after_teardown(Error::Io),
+    { unimplemented!() }
+
     /// Recv::handle_error (verified in unit v_recv): the stream is failed with `err` unless it is already closed, and all
     /// three waiters are woken
     #[verifier::external_body]
@@ -241,6 +250,15 @@ impl Recv {
 }
 
 pub struct Actions { pub recv: Recv, pub send: Send, pub task: Option<Waker>, pub conn_error: Option<Error> }
+
+impl Actions {
+    /// Actions::clear_queues: drains the scheduler queues after every stream was failed (each popped stream goes through
+    /// Counts::transition; not verified here)
+    #[verifier::external_body]
+    pub fn clear_queues(&mut self, clear_pending_accept: bool, store: &mut SStore, counts: &mut Counts)
+        ensures final(store).held() == old(store).held(), final(self).conn_error == old(self).conn_error,
+    { unimplemented!() }
+}
 
 pub struct SInner { pub counts: Counts, pub actions: Actions, pub store: SStore, pub refs: usize }
 
@@ -342,6 +360,28 @@ impl SInner {
     //@spec         final(self).actions.conn_error == Some(err),
     //@spec         // C15: the id reported in our GOAWAY is the highest peer stream handed to the application
     //@spec         r == old(self).actions.recv.last_processed_id,
+    //@end
+}
+
+impl SInner {
+    // C07: when the transport ends, EVERY stream is failed (broken pipe) unless it had already ended, every waiter is
+    // woken, and an error is remembered for the API (the first one stands).  For ANY number of streams.
+    //@extract src/proto/streams/streams.rs Inner::recv_eof
+    //@attr #[verifier::exec_allows_no_decreases_clause]
+    //@subst_re fn recv_eof<B>\(\s*&mut self,\s*send_buffer: &SendBuffer<B>,\s*clear_pending_accept: bool,\s*\) -> Result<\(\), \(\)>=>fn recv_eof(&mut self, send_buffer: &mut SendBuf, clear_pending_accept: bool) -> Result<(), ()>
+    //@subst_re let actions = &mut self\.actions;\s*let counts = &mut self\.counts;\s*let mut send_buffer = send_buffer\.inner\.lock\(\)\.unwrap\(\);\s*let send_buffer = &mut \*send_buffer;=>
+    //@subst if actions.conn_error.is_none() {=>if self.actions.conn_error.is_none() {
+    //@subst_re actions\.conn_error = Some\(\s*io::Error::new\(.*?\)\s*\.into\(\),\s*\);=>self.actions.conn_error = Some(Error::Io);
+    //@subst_re self\.store\.for_each\(\|stream\| \{ ==>> let ghost ce = self.actions.conn_error; self.store.iter_begin(); loop invariant self.store.held() == old(self).store.held(), self.actions.conn_error == ce, { let mut stream = match self.store.iter_next() { Some(s) => s, None => { break; } }; let ghost s0 = stream;
+    //@subst_re counts\.transition\(stream, \|counts, stream\| \{ ==>> { let is_pending_reset = stream.is_pending_reset_expiration();
+    //@subst actions.recv.recv_eof(stream);=>self.actions.recv.recv_eof(&mut stream);
+    //@subst actions.send.handle_error(send_buffer, stream, counts);=>self.actions.send.handle_error(send_buffer, &mut stream, &mut self.counts);
+    //@subst_re \}\)\s*\}\);\s*actions\.clear_queues\(clear_pending_accept, &mut self\.store, counts\); ==>> self.counts.transition_after_failed(stream, is_pending_reset, &mut self.store, Ghost(s0), Ghost(Error::Io), Ghost(true)); } } self.actions.clear_queues(clear_pending_accept, &mut self.store, &mut self.counts);
+    //@ret r
+    //@spec     ensures
+    //@spec         r is Ok,
+    //@spec         final(self).store.held() == old(self).store.held(),
+    //@spec         final(self).actions.conn_error == (if old(self).actions.conn_error is Some { old(self).actions.conn_error } else { Some(Error::Io) }),
     //@end
 }
 
